@@ -312,6 +312,7 @@ pub fn corpus(seed: u64, n: usize) -> Vec<Value> {
         }
         round += 1;
     }
+    out.extend(super::c13::edge_corpus("C07"));
     let specials: Vec<Value> = SPECIAL_F32.iter().map(|b| f2j(f32::from_bits(*b))).collect();
     for t in SUP_TC {
         if crate::oracle::is_1886_alias(t) {
